@@ -602,7 +602,8 @@ seeded('seeded-RAC09-zero-weight-break', ['C09', 'C13'], ['C13.index'])
 seeded('seeded-RAC10-so2-rem-euclid-tie', ['C10', 'C04'], ['C04.convex'])
 seeded('seeded-RAC13-skip-stationary-component', ['C13'], ['C13.match'])
 seeded('seeded-RAC14-signed-dot-cone-test', ['C14', 'C11'], ['C14.so3'])
-seeded('seeded-RAC15-zero-step-motion-unchecked', ['C15', 'C01', 'C03'], ['C01.kernel'])
+# seeded('seeded-RAC15-zero-step-motion-unchecked', ['C15', 'C01', 'C03'], ['C01.kernel'])     # retired: superseded by the repair a70cece (see seeded/RAC15/meta.json)
+benign_patch('rac15-ported-no-short-branch', ['C01', 'C03', 'C06', 'C15'])   # the same edit on the repaired base is harmless
 for _k in (1, 2, 3, 4, 5):
     benign_patch('ben27-r%d' % _k, ['C19', 'C20', 'C08'])       # oxmpl-js: f64_property helper, let-else in goal callbacks, macro-generated checker impls, map/map_err in sample(), merged match in setup
     benign_patch('ben28-r%d' % _k, ALL)                         # RRT/RRT*: sample_target fn, Nearest struct via fold, store_problem/reset_tree (&mut self helpers), choose_parent + filter/map/collect neighbours, rewired_cost + successors
@@ -706,3 +707,32 @@ CASES.append({'name': 'c11-so3-projection-grows', 'props': ['C11'], 'expect': ['
 CASES.append({'name': 'benign-c11-so3-projection-tolerance', 'props': ['C11', 'C06', 'C08', 'C10'], 'expect': [],
               'edits': [('oxmpl/src/base/spaces/so3_state_space.rs', ' * (1.0 - 1e-12);', ' * (1.0 - 1e-10);'),
                         ('oxmpl/src/base/spaces/so3_state_space.rs', '        for _ in 0..8 {\n            self.interpolate(center_rotation', '        for _ in 0..4 {\n            self.interpolate(center_rotation')]})
+
+# ---------------------------------------------------------------- rounds 12 and 13 of seeded changes
+seeded('seeded-RCC01-zero-cost-return-above-the-start-gate', ['C01'], ['C01.gate'])
+seeded('seeded-RCC03-bounded-so2-long-arc', ['C03', 'C10'], ['C10.arc'])
+seeded('seeded-RCC04-sampler-uses-cached-ranges', ['C04', 'C11', 'C14'], ['C11.same'])
+seeded('seeded-RCC07-process-global-print-once-flag', ['C07', 'C02'], ['C07.source'])
+seeded('seeded-RCC08-best-goal-index-across-setup', ['C08', 'C02'], ['C08.init'])
+seeded('seeded-RCC09-unwrapped-fast-path-narrow-bounds', ['C09'], ['C09.period'])
+seeded('seeded-RCC10-interpolate-skips-stationary-component', ['C10', 'C13'], ['C13.match'])
+seeded('seeded-RCC13-memoised-resolution', ['C13', 'C03'], ['C13.match'])
+seeded('seeded-RCC14-span-of-the-requested-interval', ['C14', 'C11'], ['C14.draw'])
+seeded('seeded-RCC15-step-count-cached-at-setup', ['C15', 'C03'], ['C03.res'])
+seeded('seeded-RDC02-zero-distance-sample-not-pushed', ['C02', 'C16'], ['C16.extend'])
+seeded('seeded-RDC05-reached-within-tolerance', ['C05', 'C16'], ['C16.balance'])
+seeded('seeded-RDC06-resolution-cached-by-constructor', ['C06', 'C03'], ['C03.lvs'])
+seeded('seeded-RDC11-clamp-keeps-nan-radius', ['C11', 'C12'], ['C12.nan'])
+seeded('seeded-RDC12-at-least-three-bounds', ['C12'], ['C12.count'])
+seeded('seeded-RDC16-steered-state-clamped', ['C16', 'C05'], ['C05.radius'])
+seeded('seeded-RDC17-goal-test-before-rewire', ['C17'], ['C17.rewire'])
+seeded('seeded-RDC18-component-ids-under-report', ['C18', 'C02'], ['C02.goal'])
+seeded('seeded-RDC19-core-planner-rebuilt-in-setup', ['C19'], ['C19.object'])
+seeded('seeded-RDC20-accepted-memo-keeps-failed-state', ['C20'], ['C20.validity'])
+benign_patch('ben33-r1', ALL)                                   # RRT*: choose_parent / rewire helpers + ParentChoice struct, Arc::clone of the problem
+benign_patch('ben33-r2', ALL)
+benign_patch('ben33-r3', ALL)
+benign_patch('ben33-r5', ALL)
+benign_patch('ben33-r4', ALL)                                   # RRT*: let-else gates, enumerate().skip(1) nearest, fold choose-parent, filter in the rewire loop header
+CASES.append({'name': 'c20-print-exits-reintroduced', 'props': ['C20'], 'expect': ['C20.exit'],
+              'edits': [('oxmpl-py/src/base/goal.rs', 'e.display(py);', 'e.print(py);')]})
